@@ -655,3 +655,62 @@ def rule_printf_char_hex(prog, rep, units, rid='PF1'):
                         rep.violation(rid, f, x.get('_line'), 'signed-char-hex',
                                       '%s: %s is a %s and goes to a %%%s conversion: it is promoted to int with its sign, so a byte >= 0x80 is '
                                       'printed as ffffff.. (or cut to "ff")' % (f.name, canon(e)[:40], t, cv))
+
+
+def rule_failure_untouched(prog, rep, units, rid='Q4'):
+    """In-place string routines that can fail: a call that returns NULL (refuses its input) has not modified the string.  No
+    path from the entry to `return NULL` passes a store into the string parameter (subscript / dereference store, or a
+    memmove/memcpy/strcpy with the parameter as destination)."""
+    from .expr import access_path, is_null
+    from .frontend import qtype
+    rep.rule(rid, 'an in-place string routine that returns NULL has not stored into its string argument on that path (a refused input is '
+                  'left as it was)')
+    for unit in units:
+        prog.unit(unit)
+        for f in sorted(prog.funcs_in(unit), key=lambda x: x.line or 0):
+            if f.body is None or not f.params or not (f.rettype or '').replace(' ', '').startswith('char*'):
+                continue
+            p0 = f.params[0]
+            if (qtype(p0) or '').replace(' ', '') != 'char*':
+                continue
+            sp = p0.get('name')
+            cfg = f.cfg
+            fails = [r for r in cfg.returns() if children(r.ast) and is_null(children(r.ast)[0])]
+            if not fails:
+                continue
+
+            def stores(m):
+                if not isinstance(m.ast, dict) or m.kind == 'macro':
+                    return False
+                for y in walk(m.ast):
+                    if y.get('kind') == 'BinaryOperator' and y.get('opcode') == '=':
+                        l = strip(children(y)[0])
+                        if l.get('kind') == 'ArraySubscriptExpr' and access_path(children(l)[0]) == sp:
+                            return True
+                        if l.get('kind') == 'UnaryOperator' and l.get('opcode') == '*' and sp in canon(children(l)[0]):
+                            return True
+                    if y.get('kind') == 'CallExpr' and prog.callee_name(y) in ('memmove', 'memcpy', 'strcpy', 'strncpy', 'memset') \
+                            and len(children(y)) > 1:
+                        d = canon(children(y)[1])
+                        if d == sp or d.startswith('(%s + ' % sp) or d.endswith(' + %s)' % sp):
+                            return True
+                return False
+            for r in fails:
+                rep.instance(rid)
+                seen, work, bad = set(), [(cfg.entry, False)], False
+                while work and not bad:
+                    m, st = work.pop()
+                    if (m.id, st) in seen:
+                        continue
+                    seen.add((m.id, st))
+                    if m is r:
+                        bad = st
+                        continue
+                    st2 = st or stores(m)
+                    for (s2, _l) in m.succs:
+                        work.append((s2, st2))
+                rep.oblige(rid, not bad, {'function': f.name, 'failure_return_line': r.line})
+                if bad:
+                    rep.violation(rid, f, r.line, 'modified-then-refused',
+                                  '%s can return NULL at line %s after it has already stored into %s: the caller is told the input was refused '
+                                  'but the string has been changed' % (f.name, r.line, sp))
